@@ -479,3 +479,32 @@ Proof.
     rewrite Ha. destruct (cluster_addr_disjoint s x y G Hxy); lia. }
   apply Hgen. exact Hf.
 Qed.
+
+(** * a crash is confined to what was written (C12, generic): whatever SUBSET of the writes of an operation reached the device, in
+    whatever combination, every byte range that none of the writes overlaps reads exactly as before the operation *)
+Theorem crash_outside_writes d sz l : dev_ok d -> Forall (fun w => 0 <= fst w) l ->
+  forall keep a n, 0 <= a ->
+  Forall (fun w => a + n <= fst w \/ fst w + lenZ (snd w) <= a) l ->
+  dev_ok (apply_some d l keep) /\ dread (apply_some d l keep) sz a n = dread d sz a n.
+Proof.
+  intros Hd Hpos. induction l as [|w r IH]; intros keep a n Ha Hdis; [destruct keep; split; [exact Hd|reflexivity|exact Hd|reflexivity]|].
+  inversion Hpos as [|? ? Hw Hr]; subst. inversion Hdis as [|? ? Hdw Hdr]; subst.
+  destruct keep as [|k kr]; [split; [exact Hd|reflexivity]|]. cbn [apply_some]. cbv zeta.
+  destruct (IH Hr kr a n Ha Hdr) as [Hok Hrd]. destruct k; [|split; assumption].
+  split; [apply dwrite_spec; assumption|]. rewrite read_elsewhere by (try assumption; lia). exact Hrd.
+Qed.
+
+(** ... also when writes were torn: each write that reached the device did so only with a prefix of its bytes *)
+Corollary crash_torn_writes d sz l l' : dev_ok d -> Forall (fun w => 0 <= fst w) l ->
+  Forall2 (fun (w' w:Z * list Z) => fst w' = fst w /\ lenZ (snd w') <= lenZ (snd w)) l' l ->
+  forall keep a n, 0 <= a ->
+  Forall (fun w => a + n <= fst w \/ fst w + lenZ (snd w) <= a) l ->
+  dread (apply_some d l' keep) sz a n = dread d sz a n.
+Proof.
+  intros Hd Hpos H2 keep a n Ha Hdis.
+  assert (Hpos' : Forall (fun w => 0 <= fst w) l' /\ Forall (fun w => a + n <= fst w \/ fst w + lenZ (snd w) <= a) l').
+  { clear keep. induction H2 as [|w' w r' r (Ef & El) H2 IH]; [split; constructor|].
+    inversion Hpos as [|? ? Hw Hr]; subst. inversion Hdis as [|? ? Hdw Hdr]; subst. destruct (IH Hr Hdr) as [I1 I2].
+    split; constructor; try assumption; [lia|]. destruct Hdw; [left|right]; lia. }
+  destruct Hpos' as [P1 P2]. apply (crash_outside_writes d sz l' Hd P1 keep a n Ha P2).
+Qed.
